@@ -153,6 +153,14 @@ def rule_chain(ctx, F, rule2="R2", rule3="R3"):
                 tested_fields.add(t[2][2])
                 if pse.unit_variant(t[3])[1] == "Ended":
                     ended = (v == 1) == (t[1] == "Eq")
+            elif t[0] == "discr" and t[1][0] == "field" and t[1][1] == ev and len(t) > 2 and t[2]:
+                # matches!(ev.state, AnimationState::Ended) / a match on the state
+                tested_fields.add(t[1][2])
+                names = {int(d): n for n, d in t[2]}
+                if not isinstance(v, tuple):
+                    ended = names.get(v) == "Ended"
+                elif v[0] == "not" and any(names.get(int(x)) == "Ended" for x in v[1]):
+                    ended = False
             elif pse.contains(t, ev):
                 for x in subterms(t):
                     if x[0] == "field" and x[1] == ev:
